@@ -1061,6 +1061,40 @@ Definition get_decl_x (v : val) : option (decl * list text * bool) :=
   | _ => None
   end.
 
+(* ---- sixth round: histories on ONE long-lived mapper may also contain listings
+   (get_routes / has_routes / get_route), which must leave the mapper as it is *)
+Inductive hstep := HDispatch (raw : option text) (method : text) | HRoutes (include_static : bool) | HHas | HGet (name : text).
+Definition get_hstep (v : val) : option hstep :=
+  match v with
+  | VL [VI 1%Z; b] => olet b := get_bool b in Some (HRoutes b)
+  | VL [VI 2%Z] => Some HHas
+  | VL [VI 3%Z; VT n] => Some (HGet n)
+  | VL [raw; VT method] => olet raw := get_opt get_text raw in Some (HDispatch raw method)
+  | _ => None
+  end.
+(* reference models of the three listings *)
+Definition get_routes_model (m : mapper) (include_static : bool) : list route :=
+  if include_static then routelist m ++ statics m else routelist m.
+Definition has_routes_model (m : mapper) : bool := negb (l_is_nil (routelist m)).
+Definition get_route_model (m : mapper) (name : text) : option route := assoc_get (routes m) name.
+(* the answer of one step; the mapper is the same for every step: in the source the listings are
+   functions of the mapper's attributes that assign nothing (the translator refuses any store,
+   augmented assignment or mutating call in them) *)
+Definition hist_item (callf : mapper -> text -> option text -> tracedout)
+  (routesf : mapper -> bool -> list route) (hasf : mapper -> bool) (getf : mapper -> text -> option route)
+  (m : mapper) (s : hstep) : val :=
+  match s with
+  | HDispatch raw method => put_outcome (fst (callf m method raw))
+  | HRoutes b => VL [VI 4; put_ids (routesf m b)]
+  | HHas => VL [VI 5; vbool (hasf m)]
+  | HGet n => VL [VI 6; vopt (fun r => vnat (r_id r)) (getf m n)]
+  end.
+Definition hist_spec_item (parse : text -> res pat) (sm : pat -> text -> option matchdict) (ds : list decl) (s : hstep) : val :=
+  match s with
+  | HDispatch raw method => put_spec (spec_request_with parse sm ds method raw)
+  | _ => VL []
+  end.
+
 Fixpoint connect_all_f (cf : mapper -> nat -> decl -> mapper * res unit) (m : mapper) (id : nat) (ds : list decl)
   : mapper * list (res unit) :=
   match ds with
@@ -1114,6 +1148,7 @@ Definition run_C01_with
   (cf : (text -> res pat) -> mapper -> nat -> decl -> mapper * res unit)
   (callf : (pat -> text -> option matchdict) -> mapper -> text -> option text -> tracedout)
   (nestf : option text -> option text -> option text) (prefixf : option text -> bool -> text -> text)
+  (routesf : mapper -> bool -> list route) (hasf : mapper -> bool) (getf : mapper -> text -> option route)
   (v : val) : val :=
   ret_or_bad (
     match v with
@@ -1125,7 +1160,7 @@ Definition run_C01_with
         olet raw := get_opt get_text raw in
         olet steps := match rest with
                       | [] => Some []
-                      | [h] => get_list_of get_step h
+                      | [h] => get_list_of get_hstep h
                       | _ => None
                       end in
         let '(m, sts) := connect_all_f (cf (parse_pattern_m orc)) empty_mapper 0 ds in
@@ -1141,9 +1176,9 @@ Definition run_C01_with
         let hist :=
           if cfgerr then VL []
           else if matcher_pure_ok
-               then VL (map (fun s => put_outcome (fst (callf (match_pat_m orc) m (snd s) (fst s)))) steps)
+               then VL (map (hist_item (callf (match_pat_m orc)) routesf hasf getf m) steps)
                else VL [VT (T "drift")] in
         Some (VL [model; put_spec (spec_request_m orc ds_spec method raw); hist;
-                  VL (map put_spec (spec_hist (spec_parse_m orc) (spec_match_m orc) ds_spec steps))])
+                  VL (map (hist_spec_item (spec_parse_m orc) (spec_match_m orc) ds_spec) steps)])
     | _ => None
     end).
